@@ -1145,6 +1145,8 @@ func c07(seed int64, thorough bool) {
 	c07histories(rng, thorough)
 	// 14. the connection glue against its own model (Glue.v): fileConn, udpTxRx, dialCtx (glue.go)
 	c07glue(rand.New(rand.NewSource(seed+14)), thorough)
+	// 15. the real Emulator against the bus model (Emulator.v): connect / disconnect / transmit histories (emulator.go)
+	c07emulator(rand.New(rand.NewSource(seed+15)), thorough)
 	// 12. packet connections: one datagram per Read, what does not fit the offered buffer is discarded
 	c07packets(rng, thorough)
 	// 11. a Transmitter and a Receiver on one shared connection of every kind Dial returns
